@@ -90,7 +90,7 @@ def _shard(arg):
 
 
 def run(ctx):
-    nmods = 1 if ctx.quick else 20
+    nmods = 1 if ctx.quick else 12
     ctx.pmap(_shard, [(ctx.seed, s, nmods) for s in range(16)])
     ctx.rule = ("Hypothesis-seeded programs: 40% comparison chains (length 1-4, all operators, logging operands, 6 contexts), 10% typed chains, "
                 "30% membership against literal/typed containers, 20% switchable if-chains; 40 functions per module, 8-10 argument tuples each from "
